@@ -57,6 +57,11 @@ def ob_group(n, ncols, kindset, incname, same, join, ohead, otail, shard=None, b
 
 
 COUNTERS = ["steps", "jumps", "hands", "mines", "holds", "rolls", "steps_opts"]
+KINDS_OPTS = ["TAP", "HOLD_HEAD", "MINE", "LIFT"]   # the option variants of the step counters (3 columns): two counted kinds, a head, an uncounted kind
+
+
+def _count_kinds(counter):
+    return KINDS_OPTS if counter in ("steps_opts", "jumps_opts", "hands_opts") else nc.KINDS6
 
 
 def ob_count(n, ncols, counter, variant, budget_s=120):
@@ -65,7 +70,7 @@ def ob_count(n, ncols, counter, variant, budget_s=120):
     G = mods["simfile.notes.group"]; N = mods["simfile.notes"]; C = mods["simfile.notes.count"]
 
     def run():
-        notes, meta = nc.gen_notes(symx, mods, n, ncols, nc.KINDS6)
+        notes, meta = nc.gen_notes(symx, mods, n, ncols, _count_kinds(counter))
         default = nc.INCLUDE_SETS["default"]
         exp_raise = False
         try:
@@ -164,16 +169,16 @@ def obligations(tier):
                     continue
                 obs.append(dict(name=f"count_{c} n={nct} head={oh} tail={ot}", func="ob_count", args=(nct, ncols, c, (oh, ot)), budget_s=b, bounds=f"{nct} notes, 6 kinds"))
     for same in nc.SAME:
-        obs.append(dict(name=f"count_jumps {same} include=default", func="ob_count", args=(3, 3, "jumps_opts", (same, 2, "default")), budget_s=b, bounds="3 notes, 3 columns, 6 kinds"))
+        obs.append(dict(name=f"count_jumps {same} include=default", func="ob_count", args=(3, 3, "jumps_opts", (same, 2, "default")), budget_s=b, bounds="3 notes, 3 columns, 4 kinds (TAP, HOLD_HEAD, MINE, LIFT)"))
         for minimum in ((3,) if tier == "quick" else (2, 3, 4)):
             obs.append(dict(name=f"count_hands {same} min={minimum} include={'all' if minimum == 3 else 'default'}", func="ob_count",
-                            args=(3, 3, "hands_opts", (same, minimum, "all" if minimum == 3 else "default")), budget_s=b, bounds="3 notes, 3 columns, 6 kinds"))
+                            args=(3, 3, "hands_opts", (same, minimum, "all" if minimum == 3 else "default")), budget_s=b, bounds="3 notes, 3 columns, 4 kinds (TAP, HOLD_HEAD, MINE, LIFT)"))
     for same in nc.SAME:
         for minimum in (1, 2, 3, 4):
             if tier == "quick" and minimum in (3, 4) and same != "JOIN_ALL":
                 continue
             inc = "all" if minimum % 2 else "default"
-            obs.append(dict(name=f"count_steps {same} min={minimum} include={inc}", func="ob_count", args=(3, 3, "steps_opts", (same, minimum, inc)), budget_s=b, bounds="3 notes, 3 columns, 6 kinds"))
+            obs.append(dict(name=f"count_steps {same} min={minimum} include={inc}", func="ob_count", args=(3, 3, "steps_opts", (same, minimum, inc)), budget_s=b, bounds="3 notes, 3 columns, 4 kinds (TAP, HOLD_HEAD, MINE, LIFT)"))
     return obs
 
 
@@ -202,7 +207,7 @@ def replay(data):
         exp = "raise" if st == "raise" else groups
         return out != exp, f"group_notes({notes}, {kw}) = {out}; documented: {exp}"
     n, ncols, counter, variant = a
-    notes = nc.model_notes(m, n, ncols, nc.KINDS6)
+    notes = nc.model_notes(m, n, ncols, _count_kinds(counter))
     default = nc.INCLUDE_SETS["default"]
     try:
         if counter in ("steps", "jumps", "hands"):
